@@ -269,6 +269,35 @@ def d3(ctx, rep):
                           f"the standardised bound '{key}' is not computed from the {attr} bound (it depends on {sorted(deps)})", construct=f"standardised '{key}'")
 
 
+def _kde_dataset_arg(prog, fn, recv):
+    """The expression (in terms of fn's locals) the kernel estimate `recv` is built on: the first argument of a direct
+    gaussian_kde(...) construction, or the argument a one-return project helper passes on to it; None when not recognised."""
+    if not (isinstance(recv, ast.Call) and recv.args):
+        return None
+    nm = prog.resolve(fn.module, recv.func)
+    if nm == 'scipy.stats.gaussian_kde':
+        return recv.args[0]
+    g = prog.functions.get(nm or '')
+    if g is None and isinstance(recv.func, ast.Attribute) and isinstance(recv.func.value, ast.Name) and fn.cls is not None \
+            and recv.func.value.id in (fn.self_name, 'cls', fn.cls.name):
+        g = fn.cls.lookup(recv.func.attr)
+    if g is None:
+        return None
+    rets = [r for r in walk_no_nested(g.node) if isinstance(r, ast.Return) and r.value is not None]
+    if len(rets) != 1 or not (isinstance(rets[0].value, ast.Call) and prog.resolve(g.module, rets[0].value.func) == 'scipy.stats.gaussian_kde'
+                              and rets[0].value.args and isinstance(rets[0].value.args[0], ast.Name)):
+        return None
+    params = list(g.params)
+    if g.cls is not None and g.kind in ('method', 'classmethod') and isinstance(recv.func, ast.Attribute):
+        params = params[1:]
+    want = rets[0].value.args[0].id
+    if any(isinstance(a, ast.Assign) and any(isinstance(t, ast.Name) and t.id == want for t in a.targets) for a in walk_no_nested(g.node)):
+        return None
+    if want in params and params.index(want) < len(recv.args):
+        return recv.args[params.index(want)]
+    return None
+
+
 def d4(ctx, rep):
     prog = ctx.prog
     kde = prog.cls(KDE)
@@ -356,8 +385,10 @@ def d4(ctx, rep):
             gs = guard_chain(s, fit.node)
             guarded = any(is_self_attr(t, fit.self_name, '_sample_size') and pol for t, pol in gs)
             recv = _res(fit, rs[0].func.value) if rs and isinstance(rs[0].func, ast.Attribute) else None
-            src_known = isinstance(recv, ast.Call) and bool(recv.args)
-            src_ok = src_known and derives_rhs(recv.args[0], ()) is True
+            src_expr = _kde_dataset_arg(prog, fit, recv)
+            src_res = derives_rhs(src_expr, ()) if src_expr is not None else None
+            src_known = src_res is not None
+            src_ok = src_res is True
             size_arg = rs[0].args[0] if rs and rs[0].args else (kwarg(rs[0], 'size') if rs else None)
             size_ok = size_arg is not None and is_self_attr(_res(fit, size_arg), fit.self_name, '_sample_size')
             if not src_known or size_arg is None:
